@@ -61,6 +61,8 @@ SPEC = [
     ("bblean/cli.py", {"functions": ["_validate_output_dir"]}),
     # how `bb fps-from-smiles` sizes its batches and pads the part numbers (a function nested in the command)
     ("bblean/cli.py", {"nested_functions": [("_fps_from_smiles", "parse_num_per_batch")]}),
+    # labels and global index ranges of the input files (a `for` loop with a running index; the row count of a file is an input)
+    ("bblean/multiround.py", {"functions": ["_get_files_range_tuples"]}),
     # publication of a result file: written under a temporary name, then renamed
     ("bblean/multiround.py", {"functions": ["_pickle_dump_atomic"]}),
     # the body of the `while True:` loop of the monitor daemon, as a function of the running maximum: its file effects and
@@ -79,6 +81,8 @@ EFFECTS = {"_madvise_dontneed", "shutil.rmtree", "os.replace"}
 OPAQUE_CALLS = {"time.perf_counter": "time_perf_counter"}
 # methods of an opaque parameter whose call is an effect (recorded as "<param>.<method>")
 EFFECT_METHODS = {"mkdir"}
+# functions of the loop element whose value is an input: the list of their values over the sequence is a parameter `<name>_of`
+LOOP_EXTERNALS = {"_get_fps_file_num"}
 # statements that are dropped (diagnostics only)
 DROPPED_CALLS = {"warnings.warn", "time.sleep"}
 # module-level constants that become parameters
@@ -409,6 +413,14 @@ class Translator:
             return sname
         if isinstance(f, ast.Attribute) and f.attr == "strip" and not e.args and not e.keywords:
             return f"(PV.strStrip {self.expr(f.value, cx)})"
+        if isinstance(f, ast.Name) and f.id in LOOP_EXTERNALS and len(e.args) == 1 and not e.keywords and cx.get("loop_index"):
+            sname = ident(f.id + "_of")
+            cx["symbols"].add(sname)
+            return f"(PV.getAt {sname} {cx['loop_index']})"
+        if isinstance(f, ast.Attribute) and f.attr == "zfill" and len(e.args) == 1 and not e.keywords:
+            return f"(PV.zfill {self.expr(f.value, cx)} {self.expr(e.args[0], cx)})"
+        if isinstance(f, ast.Name) and f.id == "str" and len(e.args) == 1 and not e.keywords:
+            return f"(PV.strOf {self.expr(e.args[0], cx)})"
         if t == "math.ceil" and len(e.args) == 1 and not e.keywords:
             return f"(PV.ceilF {self.expr(e.args[0], cx)})"
         if isinstance(f, ast.Name) and f.id == "float" and len(e.args) == 1 and not e.keywords:
@@ -454,6 +466,8 @@ class Translator:
         """expression of a list-valued function's `return`: tuple, constructor call"""
         if isinstance(e, ast.Tuple):
             return "[" + ", ".join(self.expr(x, cx) for x in e.elts) + "]"
+        if isinstance(e, ast.Name) and e.id in cx.get("loclists", set()):
+            return ident(e.id)
         if isinstance(e, ast.Call) and isinstance(e.func, ast.Name):
             n = e.func.id
             if n == "cls" and cx.get("dataclass_fields") is not None:
@@ -484,6 +498,68 @@ class Translator:
         s, rest = body[0], body[1:]
         if isinstance(s, ast.Expr) and isinstance(s.value, ast.Constant) and isinstance(s.value.value, str):
             return self.stmts(rest, cx, kind, end, ind)          # docstring
+        # x = []  : a local list (built by append, returned or carried through a loop)
+        if isinstance(s, ast.Assign) and len(s.targets) == 1 and isinstance(s.targets[0], ast.Name) \
+                and isinstance(s.value, ast.List) and not s.value.elts:
+            nm = s.targets[0].id
+            cx2 = dict(cx, loclists=cx.get("loclists", set()) | {nm})
+            return pad + f"let {ident(nm)} : List PV := []\n" + self.stmts(rest, cx2, kind, end, ind)
+        # x.append(e) / x.append((a, b, ...)) on a local list: tuples are flattened
+        if isinstance(s, ast.Expr) and isinstance(s.value, ast.Call) and isinstance(s.value.func, ast.Attribute) \
+                and s.value.func.attr == "append" and isinstance(s.value.func.value, ast.Name) \
+                and s.value.func.value.id in cx.get("loclists", set()) and len(s.value.args) == 1 and not s.value.keywords:
+            nm = ident(s.value.func.value.id)
+            a_ = s.value.args[0]
+            items = [self.expr(x, cx) for x in a_.elts] if isinstance(a_, ast.Tuple) else [self.expr(a_, cx)]
+            return pad + f"let {nm} := {nm} ++ [" + ", ".join(items) + "]\n" + self.stmts(rest, cx, kind, end, ind)
+        if isinstance(s, ast.For):
+            if s.orelse or kind != "L":
+                raise Unsupported(f"for loop (line {s.lineno})")
+            it, tg = s.iter, s.target
+            if isinstance(it, ast.Call) and isinstance(it.func, ast.Name) and it.func.id == "enumerate" and len(it.args) == 1 \
+                    and isinstance(tg, ast.Tuple) and len(tg.elts) == 2 and all(isinstance(x, ast.Name) for x in tg.elts):
+                seq, ivar, xvar = it.args[0], tg.elts[0].id, tg.elts[1].id
+            elif isinstance(tg, ast.Name):
+                seq, ivar, xvar = it, None, tg.id
+            else:
+                raise Unsupported(f"for loop {src_of(tg)} in {src_of(it)} (line {s.lineno})")
+            if not (isinstance(seq, ast.Name) and seq.id in cx["params"]):
+                raise Unsupported(f"for loop over {src_of(seq)} (line {s.lineno})")
+            for n in ast.walk(s):
+                if isinstance(n, (ast.Break, ast.Continue, ast.Return, ast.If, ast.While)) or (isinstance(n, ast.For) and n is not s):
+                    raise Unsupported(f"control flow inside a for loop (line {n.lineno})")
+            assigned = []
+            for n in ast.walk(s):
+                if isinstance(n, (ast.Assign, ast.AugAssign)):
+                    for t_ in (n.targets if isinstance(n, ast.Assign) else [n.target]):
+                        if isinstance(t_, ast.Name) and t_.id not in assigned:
+                            assigned.append(t_.id)
+            scal = [v for v in assigned if v in cx["locals"]]
+            lists = [v for v in sorted(cx.get("loclists", set()))
+                     if any(isinstance(n, ast.Call) and isinstance(n.func, ast.Attribute) and n.func.attr == "append"
+                            and isinstance(n.func.value, ast.Name) and n.func.value.id == v for n in ast.walk(s))]
+            if len(lists) > 1:
+                raise Unsupported(f"for loop carrying several lists (line {s.lineno})")
+            lst = lists[0] if lists else None
+            p2 = pad + "    "
+            head = "".join(p2 + f"let {ident(v)} := st_.1.getD {k} PV.pynone\n" for k, v in enumerate(scal))
+            if lst:
+                head += p2 + f"let {ident(lst)} := st_.2\n"
+            cxb = dict(cx, locals=cx["locals"] | {xvar} | ({ivar} if ivar else set()), loop_index="i_")
+
+            def end_body(c):
+                return "([" + ", ".join(ident(v) for v in scal) + "], " + (ident(lst) if lst else "[]") + ")"
+            body_txt = self.stmts(list(s.body), cxb, "L", end_body, ind + 2)
+            ivar_l = ident(ivar) if ivar else "_"
+            out = pad + f"let st_ := PV.forEnum {self.expr(seq, cx)} ([" + ", ".join(ident(v) for v in scal) + "], " \
+                + (ident(lst) if lst else "[]") + f") (fun i_ {ident(xvar)} st_ =>\n"
+            if ivar:
+                out += p2 + f"let {ivar_l} := i_\n"
+            out += head + body_txt + ")\n"
+            out += "".join(pad + f"let {ident(v)} := st_.1.getD {k} PV.pynone\n" for k, v in enumerate(scal))
+            if lst:
+                out += pad + f"let {ident(lst)} := st_.2\n"
+            return out + self.stmts(rest, cx, kind, end, ind)
         if isinstance(s, _Close):
             cx2 = dict(cx, locals=cx["locals"] | {"eff_"})
             return pad + f'let eff_ := eff_ ++ [PV.str "close", {s.path}]\n' + self.stmts(rest, cx2, kind, end, ind)
@@ -725,6 +801,8 @@ class Translator:
     # ---------------------------------------------------------------- functions
     def fn_kind(self, fn, is_init, is_proc):
         if is_init or is_proc:
+            return "L"
+        if any(isinstance(n, ast.For) for n in ast.walk(fn)):
             return "L"
         for n in ast.walk(fn):
             if isinstance(n, ast.Return) and n.value is not None:
